@@ -487,8 +487,11 @@ pub(crate) mod b {
                             continue; // two corner characters with no edge between them are not a box
                         }
                         for (dx, dy) in [(0usize, 0usize), (3, 2), (17, 5)] {
-                            for variant in ["plain", "text", "dashed_side", "stub"] {
+                            for variant in ["plain", "text", "dashed_side", "dashed_first", "dashed_last", "stub"] {
                                 if variant == "dashed_side" && h < 3 {
+                                    continue;
+                                }
+                                if (variant == "dashed_first" || variant == "dashed_last") && h < 2 {
                                     continue;
                                 }
                                 if variant == "text" && (w < 2 || h < 1) {
@@ -498,7 +501,8 @@ pub(crate) mod b {
                                 let e: String = std::iter::repeat(edge).take(w).collect();
                                 rows.push(format!("{}{}{}{}", " ".repeat(dx), c[0], e, c[1]));
                                 for i in 0..h {
-                                    let side = if variant == "dashed_side" && i == 1 { ':' } else { '|' };
+                                    let side = if (variant == "dashed_side" && i == 1) || (variant == "dashed_first" && i == 0)
+                                        || (variant == "dashed_last" && i == h - 1) { ':' } else { '|' };
                                     let mut inner: String = " ".repeat(w);
                                     if variant == "text" && i == 0 {
                                         inner = format!("ab{}", " ".repeat(w - 2));
@@ -531,7 +535,7 @@ pub(crate) mod b {
                                     rects.len() == 1
                                         && rects[0].start.x == x0 && rects[0].start.y == y0 && rects[0].end.x == x1 && rects[0].end.y == y1
                                         && !rects[0].is_filled
-                                        && rects[0].is_broken == (edge == '~' && w > 0 || variant == "dashed_side")
+                                        && rects[0].is_broken == (edge == '~' && w > 0 || variant.starts_with("dashed"))
                                         && (style == "sharp") == rects[0].radius.is_none()
                                         && others == if variant == "text" { 1 } else { 0 }
                                 };
